@@ -19,6 +19,7 @@ ap.add_argument("--out", default="/verif/seeded/MUTSWEEP.json")
 ap.add_argument("--govc", default="/verif/bin/govc")
 ap.add_argument("--strings", action="store_true", help="string-literal mutants only")
 ap.add_argument("--skip", nargs="*", default=[], help="result files of earlier sweeps: their sites are not run again")
+ap.add_argument("--only-survivors", nargs="*", default=[], help="result files of earlier sweeps: run again exactly the sites recorded there as SURVIVOR")
 a = ap.parse_args()
 ENV = dict(os.environ, GOFLAGS="", GOPROXY="off", GOSUMDB="off", GOTOOLCHAIN="local")
 MUT = "/tmp/mutate"
@@ -39,6 +40,18 @@ if a.skip:
     for (f, k) in sites:
         d = subprocess.run([MUT, "-file", f, "-n", str(k)], capture_output=True, text=True).stderr.strip().splitlines()[-1].replace("/repo/", "")
         if d not in seen:
+            keep.append((f, k))
+    sites = keep
+if a.only_survivors:
+    want = set()
+    for f in a.only_survivors:
+        for r in json.load(open(f)):
+            if r["status"] == "SURVIVOR":
+                want.add(r["site"])
+    keep = []
+    for (f, k) in sorted(sites):
+        d = subprocess.run([MUT] + (["-strings"] if a.strings else []) + ["-file", f, "-n", str(k)], capture_output=True, text=True).stderr.strip().splitlines()[-1].replace("/repo/", "")
+        if d in want:
             keep.append((f, k))
     sites = keep
 sites = sites[: a.sample]
